@@ -177,7 +177,7 @@ func enrollFetch(s *world.Server, flow string, nodeWrap bool, state, params *str
 		if s.RW == nil {
 			panic("enroll: wrapper flow without registration wrapper")
 		}
-		if res.Req, err = n.FetchRequest(nodeenrollment.WithRegistrationWrapper(s.RW), nodeenrollment.WithWrappingRegistrationFlowApplicationSpecificParams(params)); err != nil {
+		if res.Req, err = n.FetchRequest(nodeenrollment.WithRegistrationWrapper(s.NodeRegWrap()), nodeenrollment.WithWrappingRegistrationFlowApplicationSpecificParams(params)); err != nil {
 			return res, "create-request", err
 		}
 	case world.FlowRewrapped:
@@ -248,6 +248,14 @@ func enrollCaseBody(c *engine.Ctx, ec enrollCase) {
 		// the steps of the enrollment, envelope encryption (key information and IV stored with each value)
 		scfg.StorageWrapKind = []string{"", world.WrapPooled, world.WrapEnvelope}[(ec.Rep+len(ec.Flow)+int(ec.Salt&3))%3]
 		r.Count("storage_wrapper_kind:"+orDefault(scfg.StorageWrapKind, "aead"), 1)
+	}
+	if ec.RegWrap && (ec.Rep+int(ec.Salt&1))%2 == 0 {
+		// the server's registration wrapper is a pool whose encrypting key was rolled over after the nodes
+		// were provisioned; the nodes seal with the older key
+		scfg.RegWrapKind = world.WrapPooled
+	}
+	if ec.RegWrap {
+		r.Count("registration_wrapper_kind:"+orDefault(scfg.RegWrapKind, "aead"), 1)
 	}
 	rootsKind := []string{"fresh", "short-lived", "in-service-for-days"}[(ec.Rep+len(ec.Backend)+len(ec.Flow)+len(ec.State))%3]
 	switch rootsKind {
@@ -800,6 +808,30 @@ func enrollCaseBody(c *engine.Ctx, ec enrollCase) {
 				viol("client-configs-extra-protocols-differ", fmt.Sprintf("with %d extra protocols a client configuration does not carry exactly those protocols", k))
 			default:
 				r.Count(fmt.Sprintf("client_configs_with_options_cover_%d_valid_chains", len(want)), 1)
+			}
+		}
+	}
+
+	// ---- the application annotates the node's record and takes the annotation off again ------------
+	// (two Store calls through the library, the second record much shorter than the first): the record
+	// the rest of the flow relies on must be exactly the one written last
+	if ec.Backend != world.StoreOnce {
+		if cur, lerr := s.LoadNode(keyID); lerr == nil && cur != nil {
+			orig := proto.Clone(cur).(*types.NodeInformation)
+			note, _ := structpb.NewStruct(map[string]any{"annotation": strings.Repeat("n", 1500+97*(ec.Rep%7))})
+			cur.State = note
+			e1 := cur.Store(s.Ctx, s.Store, s.StoreOpts()...)
+			e2 := orig.Store(s.Ctx, s.Store, s.StoreOpts()...)
+			again, lerr2 := s.LoadNode(keyID)
+			switch {
+			case e1 != nil || e2 != nil:
+				viol("record-update-failed", fmt.Sprintf("storing the node record again through NodeInformation.Store failed: %v / %v", e1, e2))
+				return
+			case lerr2 != nil || again == nil || !proto.Equal(again, orig):
+				viol("record-update-not-reflected", fmt.Sprintf("after the node record was stored with an annotation and then without it, loading it does not return the record stored last (load err=%v)", lerr2))
+				return
+			default:
+				r.Count("record_rewritten_longer_then_shorter", 1)
 			}
 		}
 	}
